@@ -120,7 +120,11 @@ fn scenario(line: &str) -> (String, bool) {
     let kinds: Vec<char> = match field(&parts, "kinds=") { Some("-") => vec![], Some(s) => s.chars().collect(), None => return ("bad-op".into(), false) };
     let seed: u64 = field(&parts, "seed=").and_then(|s| s.parse().ok()).unwrap_or(0);
     let pert = field(&parts, "perturb=") == Some("1");
-    if kinds.iter().filter(|c| **c != 'w' && **c != 'z').count() != k || kinds.iter().any(|c| !"ielbpwz".contains(*c)) { return ("bad-op".into(), false); }
+    if kinds.iter().filter(|c| **c != 'w' && **c != 'z' && **c != 'd').count() != k || kinds.iter().any(|c| !"ielbpwzd".contains(*c)) { return ("bad-op".into(), false); }
+    // `d` (only as the last step): the pool HANDLE is dropped while tasks may still be queued; what was handed to the pool before
+    // still has to run.  No trace is taken from there on (the model has no such step): judged by the counts alone.
+    let drop_at_end = kinds.last() == Some(&'d');
+    if kinds.iter().filter(|c| **c == 'd').count() > (drop_at_end as usize) { return ("bad-op".into(), false); }
 
     {
         let mut s = st();
@@ -130,11 +134,16 @@ fn scenario(line: &str) -> (String, bool) {
     let t0 = Instant::now();
     let counts: Arc<Vec<AtomicUsize>> = Arc::new((0..k).map(|_| AtomicUsize::new(0)).collect());
     let barrier = Arc::new(Barrier::new(n));
-    let pool = ThreadPool::new(n);
+    let mut pool = Some(ThreadPool::new(n));
     let deadline = Instant::now() + Duration::from_secs(10);
     let mut timed_out = false;
     let mut t = 0usize;
     for kind in kinds.iter() {
+        if *kind == 'd' {
+            { let mut s = st(); s.active = false; }
+            drop(pool.take());
+            continue;
+        }
         if *kind == 'z' {
             // not a task: the submitter sleeps - after a `w` the WHOLE pool is idle for that long (a worker that gives up
             // waiting, an idle reaper, a timeout on the channel shows in what comes next)
@@ -157,7 +166,7 @@ fn scenario(line: &str) -> (String, bool) {
         let counts = Arc::clone(&counts);
         let barrier = Arc::clone(&barrier);
         let kind = *kind;
-        pool.execute(move || {
+        pool.as_ref().expect("d is the last step").execute(move || {
             let w = std::thread::current().name().and_then(|s| s.parse::<usize>().ok()).unwrap_or(usize::MAX);
             counts[t].fetch_add(1, Ordering::SeqCst);
             { let mut s = st(); if s.active { s.log.push(format!("b{}.{}", w, t)); } }
@@ -182,7 +191,15 @@ fn scenario(line: &str) -> (String, bool) {
     // completion = every task finished AND the pool is quiescent (some worker sits in recv
     // holding the lock, so no other worker of this pool can ever log again)
     let trace;
-    {
+    if drop_at_end {
+        // no events any more: every task counted once (or the deadline)
+        loop {
+            if counts.iter().all(|c| c.load(Ordering::SeqCst) >= 1) { std::thread::sleep(Duration::from_millis(30)); break; }
+            if Instant::now() >= deadline { timed_out = true; break; }
+            std::thread::sleep(Duration::from_millis(5));
+        }
+        trace = "-".to_string();
+    } else {
         let mut s = st();
         loop {
             if s.finished >= k && s.pending_recv.is_some() { break; }
@@ -194,7 +211,7 @@ fn scenario(line: &str) -> (String, bool) {
         s.active = false;
         trace = if s.log.is_empty() { "-".to_string() } else { s.log.join(",") };
     }
-    std::mem::forget(pool); // never dropped: see header
+    std::mem::forget(pool); // never dropped (unless the scenario says so): see header
     let cs: Vec<String> = counts.iter().map(|c| c.load(Ordering::SeqCst).to_string()).collect();
     let line = format!("N={} trace={} counts={} status={} ms={}", n, trace,
         if cs.is_empty() { "-".to_string() } else { cs.join(",") },
